@@ -144,6 +144,13 @@ func runLimitsWorld(rc *RunCtx) *Outcome {
 	default:
 		endless = false
 		// finite: events sized around interesting boundaries
+		if ch.Chance(1, 5, "run of keep-alive blocks longer than the limit") && effective <= 70000 {
+			// each comment-only block is a complete, tiny block of its own: however many follow each
+			// other, nothing is oversized
+			n := effective/len(": ka"+eol+eol) + ch.Range(1, 20, "extra keep-alives")
+			sb.WriteString(strings.Repeat(": ka"+eol+eol, n))
+			o.probe("more bytes of consecutive keep-alive blocks than the limit")
+		}
 		nEv := ch.Range(1, 4, "sized events")
 		for i := 0; i < nEv; i++ {
 			targets := []int{effective - 2, effective - 1, effective, effective + 1, effective + 2, effective / 2, 4094, 4096, 4097, 65535, 65536, 65537, 10}
